@@ -1,0 +1,9 @@
+//go:build verif
+// +build verif
+
+package protocol
+
+// Verification hook (build tag verif only): read accessor.
+
+// VerifMaxPackageLength returns the current packet length limit of TarsRequest.
+func VerifMaxPackageLength() int { return maxPackageLength }
